@@ -346,6 +346,26 @@ def run(F, tier, res):
                 else:
                     res.violate('LINE', 'fn=%s;gutter' % q, 'the line number linked to is not the line number displayed', where=F.span_of_call(c))
     res.rule('C19.LINE', nl, 2, '{line} substitutions and the gutter call site', discharged=okl)
+    # ---------- PLACEHOLDER: a URL template placeholder is substituted everywhere it occurs (str::replace), never only at its first
+    # occurrence (split_once / splitn / find / replacen on the placeholder literal): a template may mention it twice
+    PARTIAL = ('::split_once', '::splitn', '::find', '::replacen', '::rsplit_once', '::split', '::strip_prefix', '::strip_suffix', '::match_indices')
+    PLACEHOLDERS = ('{commit}', '{path}', '{line}', '{host}', '{host_name}')
+    npl = okpl = 0
+    for q in sorted(F.fn_bodies):
+        if not q.startswith('features::hyperlinks') and 'hyperlink' not in q:
+            continue
+        for i, c in F.calls(q):
+            lits = [v[1] for a in c['args'][1:] for v in F.operand_literals(q, a) if v[0] == 'str']
+            ph = [l for l in lits if l in PLACEHOLDERS]
+            if not ph:
+                continue
+            npl += 1
+            if callee_of(c).endswith(PARTIAL):
+                res.violate('PLACEHOLDER', 'fn=%s;placeholder=%s' % (q, ph[0]), 'the placeholder %s of a link template is located with %s, which handles its first occurrence only: '
+                            'a template that mentions it twice (e.g. a compare URL) keeps a literal %s in the link' % (ph[0], callee_of(c).split('::')[-1], ph[0]), where=F.span_of_call(c))
+            else:
+                okpl += 1
+    res.rule('C19.PLACEHOLDER', npl, 2, 'uses of the template placeholder literals in the hyperlink code: none through a first-occurrence-only API', discharged=okpl)
     res.distinct.update(r['rule'] for r in res.rules)
     return res
 
